@@ -28,8 +28,13 @@ PROPS = {
     "C02": {"level": "model_checking", "bounds_text": BT, "G": G(["schema"], "^Harness_Schema_", "^C02/"),
             "K": [K("^Harness_K1_", "^C02/"), K("^Harness_K2_", "^C02/", strmax=4)]},
     "C18": {"level": "model_checking", "bounds_text": BT, "K": [K("^Harness_K2_", "^C18/", strmax=4)]},
-    "C17": {"level": "model_checking", "bounds_text": BT, "K": [K("^Harness_K17_", "^C17/", strmax=4)]},
-    "C11": {"level": "model_checking", "bounds_text": BT, "K": [K("^Harness_K4_Flags", "^C11/")]},
+    "C17": {"level": "model_checking", "bounds_text": BT, "K": [K("^Harness_K17_", "^C17/", strmax=4)],
+            "G": G(["custom", "schema"], "^Harness_(Custom|Schema)_", "^C17/", programs="custom", gosym=["-prune=false"])},
+    "C11": {"level": "translation_validation", "bounds_text": BT, "K": [K("^Harness_K4_Flags", "^C11/")],
+            "V": G([], "^Harness_Diff_", "^C11/")},
+    "C12": {"level": "translation_validation", "bounds_text": BT, "V": G([], "^Harness_Diff_", "^C12/")},
+    "C13": {"level": "translation_validation", "bounds_text": BT, "V": G([], "^Harness_Diff_", "^C13/")},
+    "C15": {"level": "translation_validation", "bounds_text": BT, "V": G([], "^Harness_Diff_", "^C15/")},
     "C03": {"level": "model_checking", "bounds_text": BT, "G": G(["rt"], "^Harness_RT_", "^C03/")},
     "C04": {"level": "model_checking", "bounds_text": BT, "G": G(["rt"], "^Harness_RT_", "^C04")},
     "C19": {"level": "model_checking", "bounds_text": BT, "G": G(["rt"], "^Harness_RT_", "C19/")},
@@ -37,7 +42,7 @@ PROPS = {
     "C07": {"level": "model_checking", "bounds_text": BT, "G": G(["rt", "from"], "^Harness_(RT|From)_", "^C07/", programs="oneof|empty|mini"),
             "K": [K("^Harness_K10_", "^C07/")]},
     "C06": {"level": "model_checking", "bounds_text": BT,
-            "G": G(["corrupt"], "^Harness_Corrupt", "^C06/", programs="mini|nest$|embed$|oneof$|scal-S1|time", gosym=["-prune=false", "-solver", "z3-new"])},
+            "G": G(["corrupt"], "^Harness_Corrupt", "^C06/", programs={"quick": "mini|embed$|scal-S1|time|cast", "thorough": "mini|nest$|embed$|oneof$|scal-S1|time|cast"}, gosym=["-prune=false", "-solver", "z3-new"])},
     "C05": {"level": "model_checking", "bounds_text": BT, "G": G(["from"], "^Harness_From_", "^C05/")},
     "C08": {"level": "model_checking", "bounds_text": BT, "G": G(["echo"], "^Harness_Echo_", "^C08/")},
     "C09": {"level": "model_checking", "bounds_text": BT, "G": G(["refresh"], "^Harness_Refresh_", "^C09/")},
